@@ -4153,3 +4153,112 @@ func runObjectAttributesCrossChecked(rr *RuleRun) {
 		}
 	}
 }
+
+// ---------------------------------------------------------------------------
+// C12.lower-bound-needs-lower-evidence
+
+func init() {
+	register(&Rule{
+		ID: "C12.lower-bound-needs-lower-evidence", Prop: "C12", Floor: 2, Controls: 0,
+		Doc: "where a standard function gives its unknown result a positive collection-length lower bound, that bound is computed from, or decided by a condition that (through the variables it reads) depends on, a lower bound of the operands' ranges (ValueRange.LengthLowerBound); a decision that rests on LengthUpperBound() alone cannot justify 'at least one element', because an operand whose length has a positive upper bound may still be empty",
+		Run: runLowerBoundNeedsLowerEvidence,
+	})
+}
+
+func runLowerBoundNeedsLowerEvidence(rr *RuleRun) {
+	c := rr.Ctx
+	pkg := "cty/function/stdlib"
+	eachFuncBody(c, []string{pkg}, func(pkg string, fd *ast.FuncDecl, body *ast.BlockStmt) {
+		info := c.Info(pkg)
+		var sites []*ast.CallExpr
+		inspectNoLit(body, func(n ast.Node) bool {
+			if call, ok := n.(*ast.CallExpr); ok && isCall(info, call, "cty.RefinementBuilder.CollectionLengthLowerBound") && len(call.Args) == 1 {
+				sites = append(sites, call)
+			}
+			return true
+		})
+		if len(sites) == 0 {
+			return
+		}
+		// dependence closure: which variables (transitively) derive from lower / upper length evidence
+		lower, upper := map[types.Object]bool{}, map[types.Object]bool{}
+		evid := func(e ast.Expr) (lo, up bool) {
+			ast.Inspect(e, func(n ast.Node) bool {
+				switch x := n.(type) {
+				case *ast.CallExpr:
+					switch funcKey(callee(info, x)) {
+					case "cty.ValueRange.LengthLowerBound":
+						lo = true
+					case "cty.ValueRange.LengthUpperBound":
+						up = true
+					}
+				case *ast.Ident:
+					if lower[info.Uses[x]] {
+						lo = true
+					}
+					if upper[info.Uses[x]] {
+						up = true
+					}
+				}
+				return true
+			})
+			return
+		}
+		for pass := 0; pass < 4; pass++ {
+			inspectNoLit(body, func(n ast.Node) bool {
+				switch x := n.(type) {
+				case *ast.AssignStmt:
+					for i, l := range x.Lhs {
+						var r ast.Expr
+						if len(x.Rhs) == len(x.Lhs) {
+							r = x.Rhs[i]
+						} else if len(x.Rhs) == 1 {
+							r = x.Rhs[0]
+						}
+						o := objOf(info, l)
+						if r == nil || o == nil {
+							continue
+						}
+						lo, up := evid(r)
+						// an assignment made under a condition inherits the condition's evidence
+						for p := c.Parent(x); p != nil && p != ast.Node(body); p = c.Parent(p) {
+							if is, ok := p.(*ast.IfStmt); ok {
+								l2, u2 := evid(is.Cond)
+								lo, up = lo || l2, up || u2
+							}
+						}
+						if lo {
+							lower[o] = true
+						}
+						if up {
+							upper[o] = true
+						}
+					}
+				}
+				return true
+			})
+		}
+		for _, call := range sites {
+			key := fmt.Sprintf("%s.%s/CollectionLengthLowerBound(%s)", pkg, declName(fd), trunc(exprStr(call.Args[0]), 30))
+			if v, ok := constInt(info, call.Args[0]); ok && v <= 0 {
+				rr.OKTrivial(key, call.Pos(), "a lower bound of zero says nothing")
+				continue
+			}
+			lo, up := evid(call.Args[0])
+			for p := c.Parent(call); p != nil && p != ast.Node(body); p = c.Parent(p) {
+				if is, ok := p.(*ast.IfStmt); ok {
+					l2, u2 := evid(is.Cond)
+					lo, up = lo || l2, up || u2
+				}
+			}
+			switch {
+			case lo:
+				rr.OK(key, call.Pos(), "the bound rests on a lower bound / exact length of the operands")
+			case up:
+				rr.Violation(key, call.Pos(), "the positive length lower bound of the result is decided from LengthUpperBound() of the operands alone: an operand with a positive upper bound may still be empty, so the result can have fewer elements than claimed")
+			default:
+				rr.Assumed(key, call.Pos(), "the evidence behind this lower bound is not a length accessor the rule knows")
+			}
+		}
+	})
+}
